@@ -11,7 +11,8 @@ H_RULES = [r for r in RN_RULES if r.get('rule') in ('R8',)] + [
 WR = RT + "walrus_read.rs"
 UNIT = dict(
     name="batch_read_hydrate",
-    props=["C06", "C09"],
+    props=["C06", "C09", "C02"],
+    implicit_props=["C06", "C09"],  # the properties every obligation of the unit counts for; the others only through labelled clauses
     prelude=["core_types.rs", "str_ext.rs", "engine.rs"],
     assumptions=[
         "R14 region: from `// Hydrate from index if needed` to the snapshot of the cursor (`let c_chain`); the column cell is the parameter `info` (A-SEQ)",
